@@ -31,13 +31,22 @@ TREE_FIXES = {"hstack"}  # /repo HEAD carries the repair (fix: commit 417729e)
 
 def _key(r, c):
     k = {"layer": "struct" if r["layer"] == "S" else "catalogue", "fn": r["fn"], "clause": r["cl"], "template": r["t"]}
+    if c["layer"] == "C":
+        k["keyword"] = c.get("kw", "")
+        k["out_layout"] = c.get("lo", "C")
+        k["in_layout"] = c.get("li", "C")
     return k
 
 
 def _short(c):
     if c["layer"] == "S":
         return "np.%s[%s] shapes=%s ia=%s p=%s s=%s dtype=%s" % (c["fn"], c["t"], [a["sh"] for a in c["a"]], [x if isinstance(x, list) else x["sh"] for x in c["ia"]], c["p"], c["s"], c["dt"])
-    return "%s[%s/%s] shape=%s dtype=%s seed=%s" % (c["fn"], c["cls"], c["t"], c["sh"], c["dt"], c["sd"])
+    x = "%s[%s/%s] shape=%s dtype=%s seed=%s" % (c["fn"], c["cls"], c["t"], c["sh"], c["dt"], c["sd"])
+    if c.get("kw"):
+        x += " +%s=%s data=%s" % (c["kw"], c["kv"], c["dc"])
+    if c.get("li", "C") != "C" or c.get("lo", "C") != "C":
+        x += " layouts in=%s out=%s" % (c.get("li"), c.get("lo"))
+    return x
 
 
 def _validate(ck, obs, label, fixes):
@@ -125,11 +134,12 @@ def run(ck):
 
     # ---- 2. catalogue case table ----
     cat = _catalogue(ck)
-    catp = ck.write_json("cat.json", {k: v for k, v in cat.items() if isinstance(v, list)})
+    catp = ck.write_json("cat.json", {k: v for k, v in cat.items() if isinstance(v, (list, dict))})
     ccfg = ck.q("MC_C06_cat_quick", "MC_C06_cat_thorough")
     res2 = ck.tlc("MC_C06_cat", ccfg, env={"CAT": catp}, workers=1, coverage=False, label=f"catalogue case table {ccfg}", timeout=3000)
     ccases = [r for r in res2.records if r.get("layer") == "C"]
     unc = sorted(r["fn"] for r in res2.records if r.get("layer") == "U")
+    unckw = sorted({"%s(%s=)" % (r["fn"], r["kw"]) for r in res2.records if r.get("layer") == "K"})
     absent = sorted(r["fn"] for r in res2.records if r.get("layer") == "X")
     if len(res2.records) != res2.distinct - 1:
         raise MachineryFailure(f"exported {len(res2.records)} catalogue records but TLC found {res2.distinct - 1}")
@@ -149,11 +159,14 @@ def run(ck):
     bad = [o for o in obs if "_error" in o]
     if bad:
         raise MachineryFailure("replay error: " + str(bad[0])[:1500])
+    nokw = sorted({"%s(%s=%s)" % (o["c"]["fn"], o["c"]["kw"], o["c"]["kv"]) for o in obs if o["c"]["layer"] == "C" and o["o"].get("nokw")})
+    keep = [j for j, o in enumerate(obs) if not (o["c"]["layer"] == "C" and o["o"].get("nokw"))]
+    obs = [obs[j] for j in keep]
     missing = [o["c"] for o in obs if o["c"]["layer"] == "C" and o["o"].get("missing")]
     if missing:
         raise MachineryFailure("the specification names templates the impl module cannot instantiate: " + str(sorted({(c["cls"], c["t"]) for c in missing})[:10]))
-    sobs = obs[: len(scases)]
-    cobs = obs[len(scases) :]
+    sobs = [o for o in obs if o["c"]["layer"] == "S"]
+    cobs = [o for o in obs if o["c"]["layer"] == "C"]
 
     # ---- 4. trace validation ----
     _validate(ck, sobs, "struct", fixes)
@@ -176,6 +189,14 @@ def run(ck):
         "with_out_or_inplace_target": sum(1 for o in both_ok if o["o"]["nt"] > 0),
     }
     ck.cov["equal_but_not_bit_identical"] = sorted({"%s[%s]" % (o["c"]["fn"], o["c"]["t"]) for o in both_ok if not o["o"]["bits"] and o["o"]["val"] and o["o"]["shp"] and o["o"]["n"]})[:60]
+    kwobs = [o for o in cobs if o["c"].get("kw")]
+    kw_pairs = {(o["c"]["fn"], o["c"]["kw"]) for o in kwobs}
+    kw_live = {(o["c"]["fn"], o["c"]["kw"]) for o in kwobs if not o["o"]["ur"] and not o["o"]["br"] and (o["o"]["size"] > 0 or o["o"]["nt"] > 0)}
+    ck.cov["keyword_completeness"] = {"cases": len(kwobs), "function_keyword_pairs": len(kw_pairs), "pairs_compared_with_numbers": len(kw_live),
+                                      "pairs_never_returning": sorted("%s(%s=)" % p for p in kw_pairs - kw_live)[:80]}
+    lay = [o for o in both_ok if o["c"].get("lo", "C") != "C"]
+    ck.cov["layouts"] = {"input_layout_cases": sum(1 for o in cobs if o["c"].get("li", "C") != "C"), "out_layout_cases": sum(1 for o in cobs if o["c"].get("lo", "C") != "C"),
+                         "out_layout_cases_both_return": len(lay), "numpy_refuses_target": sum(1 for o in cobs if o["c"].get("tg") and o["o"]["br"])}
     ck.cov["functions_compared_with_numbers"] = len(nontriv_fns)
     ck.cov["functions_never_returning_on_unyt_inputs"] = only_raise
     ck.cov["function_classes"] = {
@@ -189,6 +210,8 @@ def run(ck):
     ck.cov["uncovered"] = (
         [f"{f}: catalogue entry without a call template in ArrayFnNumCat.tla" for f in unc]
         + [f"{f}: template class in the specification but absent from this NumPy" for f in absent]
+        + [f"{f}: keyword of NumPy's signature without a value class in ArrayFnNumCat.tla (KwVal)" for f in unckw]
+        + [f"{f}: value class not instantiable for this function" for f in nokw]
         + [f"{f}: every template is refused on unyt inputs (numbers never compared)" for f in only_raise]
         + [
             "numerics of non-structural functions (linalg beyond exact 2x2, fft, percentiles, statistics): NumPy on the stripped data is the oracle, not the specification",
